@@ -5,6 +5,7 @@ here=$(cd "$(dirname "$0")" && pwd)
 cd "$here"
 mkdir -p build evidence replays
 export GOFLAGS=-mod=mod GOPROXY=off GOSUMDB=off GOTOOLCHAIN=local CGO_ENABLED=0
+python3 lib/gen.py
 python3 - <<'PY'
 import sys, os
 sys.path.insert(0, os.path.join(os.getcwd(), "lib"))
